@@ -75,6 +75,10 @@ class UnlimitedRateLimiter(RateLimiter):
         pass
 
     def copy_tokens(self, other: RateLimiter):
+        # Nothing is limited but the state is kept for the limiter that replaces
+        # this one: passing through 'unlimited' should not hand out a full bucket
+        self.bucket = other.bucket
+        self.last_refill = other.last_refill
         other.successor = self
 
 
